@@ -176,7 +176,8 @@ def make_options(rng, kind, data, ns_min=0):
     o = {"direction": direction, "initialWidth": rng.choice([400, 500, 804]), "initialHeight": rng.choice([400, 300]),
          "layerGap": rng.choice([1, 20, 60, 60]) if ns_min >= 3 else rng.choice([0, 20, 60]),
          "labella": lab, "showTicks": rng.random() < 0.85, "showBorder": rng.random() < 0.3,
-         "labelPadding": rng.choice([{"left": 2, "right": 2, "top": 3, "bottom": 2}, {"left": 0, "right": 5, "top": 1, "bottom": 4}]),
+         "labelPadding": rng.choice([{"left": 2, "right": 2, "top": 3, "bottom": 2}, {"left": 0, "right": 5, "top": 1, "bottom": 4},
+                                     {"left": 8, "right": 8, "top": 2, "bottom": 2}, {"left": 1, "right": 1, "top": 7, "bottom": 6}]),
          "dotRadius": rng.choice([3, 5])}
     colkind = rng.choice(["default", "hex3", "hex6", "list", "func"])
     if colkind == "hex3":
@@ -336,7 +337,7 @@ import itertools
 D_COUNTS = [1, 2, 5, 40]
 D_TTYPES = ["num", "date", "time", "datetime"]
 D_ARRS = ["distinct", "equal", "unsorted"]
-D_SPANS = ["zero", "ms7", "s1", "day", "monthend", "leap", "yearend", "century"]
+D_SPANS = ["zero", "ms7", "subsec", "s1", "day", "monthend", "leap", "yearend", "months31", "leapyears", "century"]
 D_OPTS = ["omitted", "empty", "partial"]
 D_DIRS = ["up", "down", "left", "right"]
 D_ALGS = ["overlap", "simple", "none"]
@@ -374,6 +375,24 @@ def concretise(desc, rng):
     elif sp == "yearend":
         start = dt.datetime(rng.choice([1999, 2023, 2099]), 12, 29, 1)
         span = dt.timedelta(days=rng.choice([4, 6, 40]))
+    elif sp == "subsec":
+        # a few hundred milliseconds to a few seconds, ends NOT aligned to the tick step
+        start = dt.datetime(rng.choice([1960, 2024]), rng.randint(1, 12), rng.randint(1, 28), rng.randint(0, 23), rng.randint(0, 59),
+                            rng.randint(0, 59), rng.choice([13, 120, 377, 905]) * 1000)
+        span = dt.timedelta(milliseconds=rng.choice([58, 340, 1390, 2470, 7300]))
+    elif sp == "months31":
+        # month-level ticks; the LAST datum sits on a day the following month does not have, with a time of day
+        y = rng.choice([1999, 2023, 2024])
+        end = dt.datetime(y, rng.choice([1, 3, 5, 8, 10]), 31, rng.randint(1, 23), 30)
+        if rng.random() < 0.3:
+            end = dt.datetime(y, 1, rng.choice([29, 30]), 7)
+        span = dt.timedelta(days=rng.choice([200, 400, 900]))
+        start = end - span
+    elif sp == "leapyears":
+        # year-level ticks; the last datum is a 29 February with a time of day
+        end = dt.datetime(rng.choice([1996, 2000, 2024]), 2, 29, rng.randint(1, 23))
+        span = dt.timedelta(days=rng.choice([3000, 9000, 20000]))
+        start = end - span
     elif sp == "century":
         start = dt.datetime(1900 + rng.randint(0, 50), rng.randint(1, 12), rng.randint(1, 28))
         span = dt.timedelta(days=rng.choice([36525, 50000, 73000]))
@@ -469,7 +488,8 @@ import subprocess
 def fixed_config(name):
     if name == "c1":
         data = [{"time": dt.date(2016, 1, 5) + dt.timedelta(days=9 * i), "width": 40 + 5 * (i % 3), "text": "a%d" % i} for i in range(8)]
-        return data, {}
+        # several layers (adjacent stubs), engine defaults otherwise
+        return data, {"labella": {"maxPos": 200}}
     if name == "c2":
         data = [{"time": dt.datetime(1990 + i, 3, 1, 12, 30), "width": 50, "text": "b%d" % i} for i in range(10)]
         return data, {"direction": "down"}
@@ -478,7 +498,7 @@ def fixed_config(name):
         return data, {"scale": "LINEAR", "direction": "left"}
     if name == "c4":
         data = [{"time": dt.datetime(2020, 2, 27) + dt.timedelta(hours=7 * i), "width": 60} for i in range(12)]
-        return data, {"direction": "up", "labella": {"maxPos": 300}, "layerGap": 30}
+        return data, {"direction": "up", "labella": {"maxPos": 300, "lineSpacing": 9, "nodeSpacing": 5, "stubWidth": 3}, "layerGap": 30}
     raise KeyError(name)
 
 
@@ -488,6 +508,8 @@ def random_config(seed):
     opts = {"direction": rng.choice(["up", "down", "left", "right"])}
     if rng.random() < 0.5:
         opts["labella"] = {"maxPos": rng.choice([200, 360]), "algorithm": rng.choice(["overlap", "simple"])}
+        if rng.random() < 0.5:
+            opts["labella"].update(rng.choice([{"lineSpacing": 0}, {"lineSpacing": 7}, {"nodeSpacing": 6}, {"stubWidth": 4, "density": 0.6}]))
     if rng.random() < 0.3:
         opts["layerGap"] = rng.choice([20, 40])
     return data, opts
